@@ -4,6 +4,7 @@ import (
 	"fmt"
 	"go/token"
 	"os"
+	"strconv"
 	"strings"
 
 	"gldapverif/an"
@@ -135,6 +136,13 @@ func checkC19(c *Ctx) {
 					the = ic
 				}
 			}
+			if n > 1 && isCall(ci) {
+				// a helper that chooses the code from a constant selector: `d.setBindResult(resp, bindUser)`
+				if k, set, okH := selectedSetCode(g, ci, newResp); okH {
+					return k, true, set
+				}
+				return 0, false, true
+			}
 			if n == 1 && isCall(the) {
 				uncond := true
 				for _, ret := range an.Returns(g) {
@@ -165,7 +173,7 @@ func checkC19(c *Ctx) {
 				return
 			}
 			if k, isK, is := isSet(in); is {
-				R.Check(isK && k == success, "C19-default", fname(h)+": only success is ever set explicitly", c.pos(in), "the result code is set to ResultSuccess", "a result code other than success/invalidCredentials is produced (or the code is set conditionally inside a helper)")
+				R.Check(isK && (k == success || k == invalid), "C19-default", fname(h)+": only success or invalidCredentials is ever set explicitly", c.pos(in), "the result code is set to ResultSuccess (or back to ResultInvalidCredentials)", "a result code other than success/invalidCredentials is produced (or the code is chosen inside a helper in a way the call does not determine)")
 			}
 		})
 	}
@@ -408,6 +416,138 @@ func checkC19(c *Ctx) {
 		R.Check(okG, "C19-getvalues", "(*Entry).GetAttributeValues: values of the first attribute with exactly that name", c.P.Pos(gav.Pos()), "forward range; first element whose Name == argument decides; otherwise an empty list", "GetAttributeValues does not return the first exactly-named attribute's values: atoms "+strings.Join(gatoms, "; "))
 	}
 	R.Assumptions = append(R.Assumptions, "SimpleBindMessage.AuthChoice is always SimpleAuthChoice (newMessage); unlocked reads of the directory state are C15's concern")
+}
+
+// selectedSetCode: the call hands the response and constants to a helper
+// g that sets the result code in several places: the helper is walked with
+// the conditions on its constant arguments decided, over all valuations of
+// its other conditions; every such walk must end with the same constant
+// code set on the response (or none).
+func selectedSetCode(g *ssa.Function, ci ssa.CallInstruction, resp ssa.Value) (code int64, set bool, ok bool) {
+	args := ci.Common().Args
+	subst := map[int]string{}
+	respParam := -1
+	for i, a := range args {
+		if i >= len(g.Params) {
+			return 0, false, false
+		}
+		if an.Strip(a) == resp {
+			respParam = i
+			continue
+		}
+		if k, isK := an.IntConst(a); isK {
+			subst[i] = fmt.Sprint(k)
+		}
+	}
+	if respParam < 0 {
+		return 0, false, false
+	}
+	isRespSet := func(in ssa.Instruction) (int64, bool, bool) { // (code, const and on the response, isSet)
+		ic, isC := in.(ssa.CallInstruction)
+		if !isC || !an.CalleeIs(ic.Common(), G, "(*baseResponse).SetResultCode") {
+			return 0, false, false
+		}
+		recv, _ := an.FieldChain(ic.Common().Args[0])
+		k, isK := an.IntConst(ic.Common().Args[1])
+		return k, isK && isCall(ic) && recv != nil && an.Strip(recv) == ssa.Value(g.Params[respParam]), true
+	}
+	bad := false
+	for _, f := range an.WithClosures(g) {
+		an.Instrs(f, func(in ssa.Instruction) {
+			if _, good, is := isRespSet(in); is && (!good || f != g) {
+				bad = true
+			}
+			// the code must not be set any deeper
+			if ic, isC := in.(ssa.CallInstruction); isC {
+				if d := an.StaticCallee(ic.Common()); d != nil && an.InModule(d) && !an.CalleeIs(ic.Common(), G, "(*baseResponse).SetResultCode") {
+					for _, a := range ic.Common().Args {
+						if an.Strip(a) == ssa.Value(g.Params[respParam]) {
+							for _, dc := range an.Calls(d) {
+								if an.CalleeIs(dc.Common(), G, "(*baseResponse).SetResultCode") {
+									bad = true
+								}
+							}
+						}
+					}
+				}
+			}
+		})
+	}
+	if bad {
+		return 0, false, false
+	}
+	gw := &an.Walker{Fn: g, NoInline: true}
+	var free []string
+	fixed := map[string]bool{}
+	for _, a := range gw.CondAtoms() {
+		if v, dec := constAtom(an.TranslateAtom(a, subst)); dec {
+			fixed[a] = v
+		} else {
+			free = append(free, a)
+		}
+	}
+	if len(free) > 6 {
+		return 0, false, false
+	}
+	gw.Event = func(in ssa.Instruction, k *an.Walk) {
+		if c, good, is := isRespSet(in); is && good {
+			k.Data["code"] = c
+		}
+	}
+	first := true
+	for _, val := range an.Valuations(free) {
+		for a, v := range fixed {
+			val[a] = v
+		}
+		k := gw.Run(val)
+		if k.Undecided != "" || k.Ret == nil {
+			return 0, false, false
+		}
+		cv, has := k.Data["code"]
+		c := int64(0)
+		if has {
+			c = cv.(int64)
+		}
+		if first {
+			code, set, first = c, has, false
+		} else if c != code || has != set {
+			return 0, false, false
+		}
+	}
+	return code, set, !first
+}
+
+// constAtom decides an atom that compares two integer literals.
+func constAtom(a string) (bool, bool) {
+	for _, op := range []string{"==", "!=", "<=", ">=", "<", ">"} {
+		if !strings.HasPrefix(a, op+"(") || !strings.HasSuffix(a, ")") {
+			continue
+		}
+		parts := strings.Split(a[len(op)+1:len(a)-1], ",")
+		if len(parts) != 2 {
+			return false, false
+		}
+		x, e1 := strconv.ParseInt(parts[0], 10, 64)
+		y, e2 := strconv.ParseInt(parts[1], 10, 64)
+		if e1 != nil || e2 != nil {
+			return false, false
+		}
+		switch op {
+		case "==":
+			return x == y, true
+		case "!=":
+			return x != y, true
+		case "<=":
+			return x <= y, true
+		case ">=":
+			return x >= y, true
+		case "<":
+			return x < y, true
+		case ">":
+			return x > y, true
+		}
+	}
+	return false, false
 }
 
 // boolToConstHelper: f(b bool) returns one integer constant when b is true
